@@ -205,6 +205,9 @@ theorem C03.transactions_leave_block_tables (n : Node) :
 namespace C03.Example
 open Node.Example
 
+-- the parked row of `Node.Example` is a 162-character string that `decide` has to walk through
+set_option maxRecDepth 8192
+
 /-- the node of `Node.Example` right before its final `commit`: genesis with a deployment, a parked transaction, one
 block with a call, one mined block - nothing of blocks 1 and 2 committed yet -/
 def pre : Node × Ghost := runOps (ops.take 5) ({}, Ghost.init)
